@@ -13,6 +13,7 @@ def register(R):
     register_assertions(R)
     register_patch(R)
     register_usefixture(R)
+    register_placeholder(R)
     R.shape("ExcHandler", __call__=dict(event=True, returns="any"))        # addOnException handler: called, does not raise (documented)
     R.shape("RunTestFactory", __call__=dict(event=True, returns="ARunTest", exsures=["True"]))
     R.shape("ARunTest", run=dict(event=True, returns="any", exsures=["True"]))
@@ -239,3 +240,29 @@ def register_usefixture(R):
                         "prefix_of(old(listof(self._cleanups)), listof(self._cleanups))",
                         "self._TestCase__details is old(self._TestCase__details)",
                         "implies(self._TestCase__details is not None, %s == old(%s))" % (D, D)])
+
+
+def register_placeholder(R):
+    P = TC + "PlaceHolder."
+    R.fields_of("ExtResult", current_tags="anyset")
+    # the decorated result the placeholder reports to: ExtendedToOriginalDecorator(result) (C08 carries every call to the raw target)
+    R.contract(P + "_result", assumed=True, params={"result": "any"}, returns="ExtResult", pure=True, ensures=["not allocated(ret)"])
+    OUT = "(self._outcome == 'addSuccess' or self._outcome == 'addFailure' or self._outcome == 'addError' or self._outcome == 'addSkip' or " \
+          "self._outcome == 'addExpectedFailure' or self._outcome == 'addUnexpectedSuccess')"
+    # replay of one recorded test: time(start)? tags(T - current) startTest time(end)? outcome(details) stopTest tags(-, T - current)
+    R.contract(P + "run", props=["C09", "C17", "C10"], params={"result": "any"},
+               requires=[OUT, "isinstance(self._outcome, str)"], frame_hist=True, modifies=["$hist"], returns="none",
+               ensures=["exists(lambda rx, rn, re1, re2: not allocated(rx) and not allocated(rn) and "
+                        " setof(rn) == setof(self._tags) - setof(astype(fieldof(rx, 'current_tags'), 'anyset')) and "
+                        " setof(re1) == set() and setof(re2) == set() and "
+                        " hsel(HIST(), rx) == snoc("
+                        "   (snoc(snoc((snoc(hnil_of(rx), call('time', [self._timestamps[0]], {})) if self._timestamps[0] is not None else hnil_of(rx)),"
+                        "              call('tags', [rn, re1], {}), call('startTest', [self], {})), call('time', [self._timestamps[1]], {}))"
+                        "    if self._timestamps[1] is not None else"
+                        "    snoc((snoc(hnil_of(rx), call('time', [self._timestamps[0]], {})) if self._timestamps[0] is not None else hnil_of(rx)),"
+                        "         call('tags', [rn, re1], {}), call('startTest', [self], {}))),"
+                        "   outcome_call(self._outcome, self, self._details), call('stopTest', [self], {}), call('tags', [re2, rn], {})))"])
+    R.define("hnil_of", ["r"], "old(hsel(HIST(), r))")
+    R.define("outcome_call", ["name", "test", "details"],
+             "ite(name == 'addSuccess' or name == 'addUnexpectedSuccess', call(name, [test, details], {}), "
+             "ite(name == 'addSkip', call(name, [test, None, details], {}), call(name, [test, None, details], {})))")
